@@ -59,7 +59,14 @@ def node_part(res, rng, inputs):
         t = 3 * S
         probes = []
         # corpus and the longest inputs first, then a random sample
-        chosen = usable[:60] + [usable[r.below(len(usable))] for _ in range(per_run)]
+        # well-formed queries with very long transaction ids (the id is echoed; its length enters the reply-size arithmetic)
+        def long_tid_query(n, q):
+            body = (b"d2:id20:" + r.bytes(20) + (b"9:info_hash20:" + r.bytes(20) if q == b"get_peers" else
+                                                   b"6:target20:" + r.bytes(20) if q == b"find_node" else b"") + b"e")
+            return (b"d1:a" + body + b"1:q" + str(len(q)).encode() + b":" + q + b"1:t" + str(n).encode() + b":" + r.bytes(n)
+                    + b"1:y1:qe")
+        longs = [long_tid_query(n, q) for n in (33, 700, 799, 800, 801, 900, 1300) for q in (b"get_peers", b"find_node", b"ping")]
+        chosen = usable[:60] + longs + [usable[r.below(len(usable))] for _ in range(per_run)]
         for j, b in enumerate(chosen):
             t += r.range(1, 20) * MS
             sc.add("at %d inject %s %s %s" % (t, srcs[r.below(len(srcs))].script(), naddr.script(), b.hex()))
